@@ -6816,6 +6816,7 @@ static int nowDoCvPkaInnerECDSA(ssl_t *ssl, pkaAfter_t *pka,
     tmpEcdsa = psMalloc(ssl->hsPool, len);
     if (tmpEcdsa == NULL)
     {
+        psFree(sig, ssl->hsPool);
         return PS_MEM_FAIL;
     }
     tmpEcdsa[0] = (sigLen << 8) & 0xff00;
